@@ -240,7 +240,7 @@ func checkC01(c *Ctx, r *Report) {
 					if !isCall || !isFunc(calleeObj(&call.Call), modPath+"/internal/abmf", "SendAccountDebitRequest") || !m.only(call.Block(), m.dbt) {
 						return
 					}
-					if succ := successEdgeOf(call); succ != nil && (succ == u.Block() || succ.Dominates(u.Block())) {
+					if onSuccessEdge(call, u.Block()) {
 						ok = true
 					}
 				})
@@ -339,6 +339,40 @@ func (m *chfModel) priceOf(p poly) poly {
 	return poly{"<no price>": 1}
 }
 
+// onSuccessEdge: block b is reached only through the edge on which the call's
+// error result is nil.
+func onSuccessEdge(call *ssa.Call, b *ssa.BasicBlock) bool {
+	from, to := successEdge2(call)
+	if to == nil {
+		return false
+	}
+	return edgeDominates(from, to, b)
+}
+
+func successEdge2(call *ssa.Call) (*ssa.BasicBlock, *ssa.BasicBlock) {
+	for _, ref := range *call.Referrers() {
+		ex, ok := ref.(*ssa.Extract)
+		if !ok {
+			continue
+		}
+		for _, r2 := range *ex.Referrers() {
+			bo, ok := r2.(*ssa.BinOp)
+			if !ok || (bo.Op != token.NEQ && bo.Op != token.EQL) || !(isNilConst(bo.X) || isNilConst(bo.Y)) {
+				continue
+			}
+			for _, r3 := range *bo.Referrers() {
+				if ifi, ok := r3.(*ssa.If); ok {
+					if bo.Op == token.NEQ {
+						return ifi.Block(), ifi.Block().Succs[1]
+					}
+					return ifi.Block(), ifi.Block().Succs[0]
+				}
+			}
+		}
+	}
+	return nil, nil
+}
+
 // successEdgeOf: the block entered when the call's error result is nil.
 func successEdgeOf(call *ssa.Call) *ssa.BasicBlock {
 	for _, ref := range *call.Referrers() {
@@ -391,8 +425,7 @@ func (m *chfModel) checkReserveRequest(form poly, u *ssa.MapUpdate, DD, UPD int6
 	if !ok {
 		return false, "granted units do not come from an account-server answer"
 	}
-	succ := successEdgeOf(call)
-	if succ == nil || !(succ == u.Block() || succ.Dominates(u.Block())) {
+	if !onSuccessEdge(call, u.Block()) {
 		return false, "the granted units are added although the reservation request may have failed"
 	}
 	_, stores := m.reqObjectOf(call)
